@@ -512,9 +512,10 @@ impl Check for C09 {
             out.count("enumerated_sequences_two_streams", n);
             return;
         }
-        let len = match rng.below(4) {
-            0 => rng.usize(5, 12),
-            1 => rng.usize(40, 80),
+        let len = match rng.below(40) {
+            0 => rng.usize(200, 400), // long histories: state left over from much earlier
+            1..=9 => rng.usize(5, 12),
+            10..=19 => rng.usize(40, 80),
             _ => rng.usize(10, 40),
         };
         let mut it = |i: usize, m: &Model, r: &mut Rng| if i < len { Some(random_sym(r, m)) } else { None };
